@@ -21,6 +21,7 @@ import (
 	"strconv"
 	"strings"
 	"sync"
+	"sync/atomic"
 	"time"
 
 	"github.com/jech/storrent/config"
@@ -542,6 +543,13 @@ func runCase(c *Case, out *Out) {
 		w.add(o)
 	}
 	defer func() { tor.VerifAnnounce = nil }()
+	var slowTicks int32
+	tor.VerifYield = func(point string) {
+		if point == "run.slowtick" {
+			atomic.AddInt32(&slowTicks, 1)
+		}
+	}
+	defer func() { tor.VerifYield = nil }()
 	ctx, cancel := context.WithCancel(context.Background())
 	defer cancel()
 
@@ -631,10 +639,17 @@ func runCase(c *Case, out *Out) {
 				}
 			})
 		case "Tick":
-			// both tickers fire (at least once), then stop again
+			// both tickers fire until the run loop has taken at least one slow tick, then stop again
+			before := atomic.LoadInt32(&slowTicks)
 			w.parked(func() { tor.VerifTick(t, true) })
-			time.Sleep(12 * time.Millisecond)
+			for n := 0; n < 5000 && atomic.LoadInt32(&slowTicks) == before; n++ {
+				time.Sleep(time.Millisecond)
+			}
 			w.parked(func() { tor.VerifTick(t, false) })
+			if atomic.LoadInt32(&slowTicks) == before {
+				out.Note = desc + ": the run loop did not take a tick within 5 s"
+				return
+			}
 		case "Want":
 			if nextPiece >= npieces {
 				out.Nonconf = append(out.Nonconf, desc+": out of pieces, step skipped")
